@@ -56,7 +56,17 @@ fn run_gm<Ty: EdgeType + Clone, S: BuildHasher + Default + Clone>(ops: &[GOp], o
             match o.0.as_str() {
                 "add_node" => vec![line("some", &[g.add_node(a[0]) as i64])],
                 "remove_node" => vec![line("bool", &[g.remove_node(a[0]) as i64])],
-                "add_edge" => vec![opt(g.add_edge(a[0], a[1], a[2]))],
+                "add_edge" => {
+                    // the same insertion through the generic data::Build interface, on a clone: it refuses an existing edge
+                    // and otherwise adds exactly what the inherent call adds
+                    let had = g.contains_edge(a[0], a[1]);
+                    let before = battery(&g);
+                    let mut c = g.clone();
+                    let r = petgraph::data::Build::add_edge(&mut c, a[0], a[1], a[2]);
+                    let res = opt(g.add_edge(a[0], a[1], a[2]));
+                    let ok = if had { r.is_none() && battery(&c) == before } else { r.is_some() && battery(&c) == battery(&g) };
+                    if ok { vec![res] } else { vec![res, "build-twin-mismatch".into()] }
+                }
                 "remove_edge" => vec![opt(g.remove_edge(a[0], a[1]))],
                 "clear" => { g.clear(); vec!["unit".into()] }
                 "set_edge_weight" => vec![line("bool", &[match g.edge_weight_mut(a[0], a[1]) { Some(w) => { *w = a[2]; 1 } None => 0 }])],
